@@ -258,8 +258,10 @@ def run_sensitivity(prop):
             if base_state.strip():
                 subprocess.run(["git", "-C", wt, "apply"], input=base_state, text=True)
         for m in hand:
-            edits = m.get("edits") or [(m["file"], m["find"], m["replace"])]
+            edits = m.get("edits") or ([(m["file"], m["find"], m["replace"])] if "file" in m else [])
             ok = True
+            if m.get("patch"):
+                ok = sh("git", "-C", wt, "apply", os.path.join(VERIF, m["patch"])).returncode == 0
             for f, find, rep in edits:
                 pth = os.path.join(wt, f)
                 try:
